@@ -757,7 +757,7 @@ func divisorSites(p *Prog, f func(pk *packages.Package, fd *ast.FuncDecl, be ast
 
 func init() {
 	if len(os.Args) > 1 && os.Args[1] == "divs" {
-		p, err := load(loadOpts{repo: "/repo"})
+		p, err := load(loadOpts{repo: dumpRepo()})
 		if err != nil {
 			fmt.Println(err)
 			os.Exit(2)
